@@ -118,4 +118,39 @@ theorem conf_opening_hours {k t} (h : Conf g_opening_hours false k t) :
   simp [List.all_eq_true, hr.1, hr.2]
   exact hrs
 
+
+/-- `input_opening_hours = _{ SOI ~ &ANY ~ opening_hours ~ EOI }`: the first pair is a conforming
+`opening_hours` pair -/
+theorem conf_entry {ks : List T} {t : List Char} (h : Conf entry false ks t) :
+    ∃ x rest, ks = x :: rest ∧ Good .opening_hours buildOpeningHours (fun e => ParserWF e = true) x := by
+  conf_unfoldk [entry, g_input_opening_hours] at h
+  conf_destruct [conf_opening_hours]
+  exact ⟨_, _, rfl, ‹_›, ‹_›⟩
+
+/-- whatever the input, the outcome of the parser model is safe -/
+theorem parseChars_safe (inp : List Char) : Safe (fun e => ParserWF e = true) (parseChars inp) := by
+  unfold parseChars
+  cases hp : parseWith entry inp with
+  | none => simp
+  | some ks =>
+    obtain ⟨t, hc⟩ := parseWith_conf hp
+    obtain ⟨x, rest, rfl, hx⟩ := conf_entry hc
+    exact hx.2
+
+/-- C04 (parser part): no input makes the parser panic -/
+theorem parse_never_panics (inp : List Char) (site : String) :
+    Parser.parseChars inp ≠ .error (.panic site) :=
+  (parseChars_safe inp).1 site
+
+/-- C05 (rejection clause): every accepted expression is within the ranges of `ParserWF` -/
+theorem parse_ok_wf (inp : List Char) (e : Expr) (h : Parser.parseChars inp = .ok e) : ParserWF e = true :=
+  (parseChars_safe inp).2 e h
+
+/-- the same two facts for `parse : String → PM Expr` -/
+theorem parse_string_never_panics (s : String) (site : String) : Parser.parse s ≠ .error (.panic site) :=
+  parse_never_panics s.toList site
+
+theorem parse_string_ok_wf (s : String) (e : Expr) (h : Parser.parse s = .ok e) : ParserWF e = true :=
+  parse_ok_wf s.toList e h
+
 end OH.Proofs.SynTotal
